@@ -253,6 +253,40 @@ def stream_sequences(ctx, drv, n_seq):
                         "max tables during a call": max((len(t) for s in m for t in s["read_trace"]), default=0)}, limit=2)
 
 
+def stream_cache_pressure(ctx, n_rounds):
+    """A long session: the same program tagged before and after many programs that bring thousands of distinct label
+    names through the SAME parser and taxonomy (a bounded memo, eviction and re-translation would show; seeded change
+    C03-a — lru_cache(maxsize=2048) on get_taxon_name_list — was only reported as a broken tie before this stream)."""
+    probes = [
+        "x = int('3')\ny = list('ab')\ny.append(x)\nprint(str(x))\n",
+        "def f(n):\n    acc = []\n    for i in range(n):\n        acc.append(float(i))\n    return tuple(acc)\n",
+    ]
+    for r in range(n_rounds):
+        proc = Proc()
+        firsts = []
+        for t in probes:
+            _, out = proc.tag(t)
+            firsts.append(out)
+        distinct = set()
+        fillers = 6 + r
+        for f in range(fillers):
+            src = "\n".join(f"v{r}_{f}_{j} = {j}" for j in range(130)) + "\n"
+            _, out = proc.tag(src)
+            if "labels" in out:
+                distinct |= {n for n, _ in out["labels"]}
+        for t, first in zip(probes, firsts):
+            _, again = proc.tag(t)
+            ctx.count("cache pressure (long session)", (r, t), nontrivial=True)
+            if again != first:
+                d = c11.first_diff(json.loads(json.dumps(again)), json.loads(json.dumps(first)))
+                ctx.violations.append({
+                    "what": f"tags of a program changed after a long session of other programs ({d})",
+                    "replay": {"kind": "cache-pressure", "probe": t, "fillers": fillers, "distinct_labels_between": len(distinct),
+                               "impl": {"first": summarize(first), "again": summarize(again)}, "at": d}})
+                return
+        ctx.dist(f"pressure.distinct_labels>={(len(distinct) // 1000) * 1000}")
+
+
 def memo_size(proc):
     """Number of memoised translations (observable only while the memo is an lru_cache)."""
     f = getattr(type(proc.taxonomy), "get_taxon_name_list", None)
@@ -418,6 +452,7 @@ def run(ctx):
     )
     try:
         stream_sequences(ctx, drv, 14 if quick else 300)
+        stream_cache_pressure(ctx, 1 if quick else 4)
         stream_collections(ctx, drv, 6 if quick else 80)
         stream_hashseeds(ctx, 3 if quick else 16, 3 if quick else 6)
     finally:
